@@ -122,6 +122,10 @@ class Model:
             from .flatten import normalize_calls
 
             normalize_calls(self)
+        if not os.environ.get("VERIF_NO_DESUGAR"):
+            from .flatten import desugar
+
+            desugar(self)
 
     # ------------------------------------------------------------------ building
     def _walk(self, body, prefix, cls, mod, path, parent_fn):
